@@ -554,6 +554,21 @@ def upper_bounded_at(fn, local, bb, tainted):
     return False
 
 
+def loop_exits(fn, bb):
+    """Normal-edge exits (s, t) of the strongly connected component (cycle set) that contains block bb."""
+    cfg = fn.cfg
+    fwd = cfg.reach_set([bb])
+    if bb not in fwd:
+        return None            # bb is not in a cycle
+    scc = {b for b in fwd if bb in cfg.reach_set([b])} | {bb}
+    out = []
+    for s_ in sorted(scc):
+        for t_ in cfg.succ[s_]:
+            if t_ not in scc and cfg.can_return(t_):      # `unreachable` arms of discriminant switches are no exits
+                out.append((s_, t_))
+    return scc, out
+
+
 def indirect_calls(fn, field):
     """[(bb, term)] calls through a function pointer loaded from a struct field named `field`
     (vtable-style dispatch)."""
